@@ -273,12 +273,43 @@ func c02Run(c *Ctx) {
 				}
 			}
 		}
+		if r.Chance(0.15) {
+			// what the introspection methods returned belongs to the caller: it edits the lists in
+			// place (a filter, display names) before the next Run
+			for _, names := range [][]string{m.OutputNames(), m.InputNames(), m.ParamNames()} {
+				for i := range names {
+					names[i] = "edited-by-the-caller"
+				}
+			}
+			for _, dims := range m.InputShapes() {
+				for i := range dims {
+					dims[i].Size, dims[i].Name = dims[i].Size+5, "edited"
+				}
+			}
+			c.Count("runs-after-the-caller-edited-introspection-results", 1)
+		}
 		var out gonnx.Tensors
+		handed := make(map[string]tensor.Tensor, len(in))
+		for k, t := range in {
+			handed[k] = t
+		}
 		o := mon.Capture(nil, func() ([]tensor.Tensor, error) {
 			var err error
 			out, err = m.Run(in)
 			return nil, err
 		})
+		// the map is the caller's too (it may keep it, with its tensors, for the next Run): the
+		// same names bound to the same objects afterwards
+		if len(in) != len(handed) {
+			c.Violation("history:caller-map-modified", "step %d (%s): the caller's input map has %d entries after Run, %d before | model %s", step, action, len(in), len(handed), trunc(desc, 300))
+			return
+		}
+		for k, t := range handed {
+			if in[k] != t {
+				c.Violation("history:caller-map-modified", "step %d (%s): entry %q of the caller's input map holds another object after Run | model %s", step, action, k, trunc(desc, 300))
+				return
+			}
+		}
 		var events []mon.Event
 		if proxied {
 			events = px.Events()
